@@ -39,7 +39,7 @@ def _is_type_expr(repo: Repo, f: FuncInfo, e: ast.AST) -> Optional[str]:
     return None
 
 
-def rule_conform(repo: Repo, rid: str = "C06.conform", only_funcs: Optional[Iterable[str]] = None) -> RuleResult:
+def rule_conform(repo: Repo, rid: str = "C06.conform", only_funcs: Optional[Iterable[str]] = None, floor: int = 5) -> RuleResult:
     r = RuleResult(rid, "conformance of an object's type to a required type is decided by is_sub_type, never by ==/!= on types or type names",
                    "forall / fact checking range over the type and its subtypes")
     funcs = repo.all_funcs() if only_funcs is None else [repo.func(x) for x in only_funcs]
@@ -57,7 +57,7 @@ def rule_conform(repo: Repo, rid: str = "C06.conform", only_funcs: Optional[Iter
                 r.site(L.site(f, n, "subtype test"))
                 r.ok({"function": f.qn, "test": unparse(n)})
     if only_funcs is None:
-        r.require_sites(5)
+        r.require_sites(floor)
     else:
         r.require_sites(1)
     return r
